@@ -57,3 +57,73 @@ Proof.
   destruct (sstep a l) as [a'|] eqn:E; [|now apply IH].
   destruct (inner_step_decreases T a l a' X Hc Hl E) as (Hn & X' & Hc'). specialize (IH a' X' Hc'). lia.
 Qed.
+
+(** * lifted to the product *)
+Section Between.
+  Context {M : Type}.
+  Variable hf : nat -> M -> list M.
+  Variable x : subid.
+  Variable k : nat.
+  Variable sc : script.
+  Variable srcs : list M.
+  Notation xstate := (xstate M).
+  Notation xstep := (xstep hf x k sc srcs).
+
+  (** the Sender threads of topic t are the publications that have a Sender for x *)
+  Definition Tt (xs : xstate) (t : nat) : list tid := pubs_of x (senders (fst (xtop xs t))).
+  Definition nux (xs : xstate) : nat :=
+    list_sum (map (fun t => nu (Tt xs t) (snd (xtop xs t))) (seq 0 k)).
+  Definition BInv (xs : xstate) : Prop :=
+    forall t, t < k -> CInv x (xtop xs t) /\ XInv (snd (xtop xs t)).
+
+  (** a closed in-between step: a Sender step, a hand-over or a receive at some topic *)
+  Definition between (l : xlabel) : bool :=
+    match l with XInt _ (CA al) => inner al | _ => false end.
+
+  Theorem between_step_decreases xs l xs' : BInv xs -> between l = true ->
+    xstep xs l = Some xs' -> nux xs' < nux xs /\ BInv xs'.
+  Proof.
+    intros HB Hl E. destruct l as [t [bl|al]|bls|t c bls]; try discriminate Hl. simpl in Hl, E.
+    destruct (Nat.ltb t k) eqn:Ht; [|discriminate]. apply Nat.ltb_lt in Ht.
+    destruct (HB t Ht) as [HI HX]. destruct (xtop xs t) as [g a] eqn:Et. simpl in *.
+    destruct (a_label_ok al) eqn:Hok; [|discriminate].
+    destruct (sstep a al) as [a'|] eqn:Es; [|discriminate].
+    destruct (is_quiet_lab _); [|discriminate]. injection E as <-.
+    assert (Ecs : cstep x (g, a) (CA al) = Some (g, a')) by (simpl; now rewrite Hok, Es).
+    destruct (crefine_step x (g, a) _ _ HI Ecs) as [HI' _].
+    destruct HI as (Ig & Ia & K).
+    assert (Hc : covers (pubs_of x (senders g)) a).
+    { intros p Hp. apply in_pubs_of. now apply (k_thr _ _ _ K). }
+    destruct (inner_step_decreases _ a al a' (conj Ia HX) Hc Hl Es) as (Hn & [_ HX'] & _).
+    split.
+    - unfold nux.
+      pose proof (sum_change (fun u => nu (Tt xs u) (snd (xtop xs u)))
+                             (fun u => nu (Tt (set_top xs t (g, a')) u) (snd (xtop (set_top xs t (g, a')) u)))
+                             t (seq 0 k) (seq_NoDup _ _) ltac:(apply in_seq; lia)) as HS.
+      cbv beta in HS. unfold Tt in HS. simpl in HS. rewrite upd_same, Et in HS. simpl in HS.
+      assert (Hoth : forall u, u <> t ->
+                nu (pubs_of x (senders (fst (upd (xtop xs) t (g, a') u)))) (snd (upd (xtop xs) t (g, a') u))
+                = nu (pubs_of x (senders (fst (xtop xs u)))) (snd (xtop xs u))).
+      { intros u Hu. now rewrite upd_other. }
+      specialize (HS Hoth). unfold Tt. simpl. lia.
+    - intros u Hu. simpl. destruct (Nat.eq_dec u t) as [->|Hne].
+      + rewrite upd_same. simpl. now split.
+      + rewrite upd_other by exact Hne. now apply HB.
+  Qed.
+
+  (** hence: however the closed in-between steps are scheduled, at most [nux xs] of them are taken
+      before the next Router step (or source publish) *)
+  Fixpoint xcount (xs : xstate) (ls : list xlabel) : nat :=
+    match ls with
+    | [] => 0
+    | l :: ls' => match xstep xs l with Some xs' => S (xcount xs' ls') | None => xcount xs ls' end
+    end.
+
+  Theorem between_run_bounded ls : Forall (fun l => between l = true) ls ->
+    forall xs, BInv xs -> xcount xs ls <= nux xs.
+  Proof.
+    induction 1 as [|l ls Hl _ IH]; intros xs HB; simpl; [lia|].
+    destruct (xstep xs l) as [xs'|] eqn:E; [|now apply IH].
+    destruct (between_step_decreases xs l xs' HB Hl E) as [Hn HB']. specialize (IH xs' HB'). lia.
+  Qed.
+End Between.
